@@ -163,20 +163,24 @@ func (c *connection) Skip(n int) (err error) {
 func (c *connection) Release() (err error) {
 	// Check inputBuffer length first to reduce contention in mux situation.
 	// c.operator.do competes with c.inputs/c.inputAck
-	if c.inputBuffer.Len() == 0 && c.operator.do() {
+	if c.IsActive() && c.inputBuffer.Len() == 0 && c.operator.do() {
 		verifPoint(vpReleaseTokenTaken, c, 0)
-		maxSize := c.inputBuffer.calcMaxSize()
-		// Set the maximum value of maxsize equal to mallocMax to prevent GC pressure.
-		if maxSize > mallocMax {
-			maxSize = mallocMax
-		}
+		// The token pins the operator to this connection only while the connection is still active:
+		// once it is closed the slot may already belong to another connection (and our buffer is gone).
+		if c.IsActive() {
+			maxSize := c.inputBuffer.calcMaxSize()
+			// Set the maximum value of maxsize equal to mallocMax to prevent GC pressure.
+			if maxSize > mallocMax {
+				maxSize = mallocMax
+			}
 
-		if maxSize > c.maxSize {
-			c.maxSize = maxSize
-		}
-		// Double check length to reset tail node
-		if c.inputBuffer.Len() == 0 {
-			c.inputBuffer.resetTail(c.maxSize)
+			if maxSize > c.maxSize {
+				c.maxSize = maxSize
+			}
+			// Double check length to reset tail node
+			if c.inputBuffer.Len() == 0 {
+				c.inputBuffer.resetTail(c.maxSize)
+			}
 		}
 		verifPoint(vpReleaseBeforeDone, c, 0)
 		c.operator.done()
